@@ -20,6 +20,7 @@ import (
 	"os"
 	"runtime/pprof"
 	"sort"
+	"sync"
 	"time"
 
 	"github.com/google/badwolf/bql/planner/filter"
@@ -81,7 +82,12 @@ type Query struct {
 
 func (q *Query) desc() QDesc {
 	lo := q.Lo
-	d := QDesc{Op: q.Op, Args: []string{}, Lo: loJSON(&lo)}
+	return q.descLo(&lo)
+}
+
+// descLo describes the request with the options as they are in *l right now.
+func (q *Query) descLo(l *storage.LookupOptions) QDesc {
+	d := QDesc{Op: q.Op, Args: []string{}, Lo: loJSON(l)}
 	switch q.Op {
 	case "Objects", "TriplesForSubjectAndPredicate":
 		d.Args = []string{q.S.UUID().String(), q.P.UUID().String()}
@@ -104,7 +110,12 @@ func (q *Query) desc() QDesc {
 
 func (q *Query) run(ctx context.Context, g storage.Graph) Ans {
 	lo := q.Lo // fresh copy
-	l := &lo
+	return q.runLo(ctx, g, &lo)
+}
+
+// runLo issues the request with the caller's own options value (callers keep and re-use option values, change their
+// fields in place between calls and derive new ones by struct copy).
+func (q *Query) runLo(ctx context.Context, g storage.Graph, l *storage.LookupOptions) Ans {
 	switch q.Op {
 	case "Objects":
 		return collect(func(c chan<- *triple.Object) error { return g.Objects(ctx, q.S, q.P, l, c) }, rObj)
@@ -235,6 +246,46 @@ func (v *vocab) randLo(rng *rand.Rand) storage.LookupOptions {
 		lo.FilterOptions = &f
 	}
 	return lo
+}
+
+// mutateLo changes one field of a long-lived options value in place (same change on the twin).
+func (v *vocab) mutateLo(rng *rand.Rand, a, b *storage.LookupOptions) {
+	switch rng.Intn(6) {
+	case 0:
+		m := []int{0, 1, 2, 3, 7}[rng.Intn(5)]
+		if m == a.MaxElements {
+			m = a.MaxElements + 1
+		}
+		a.MaxElements, b.MaxElements = m, m
+	case 1:
+		var t *time.Time
+		if a.LowerAnchor == nil || rng.Intn(3) != 0 {
+			t = v.anchors[rng.Intn(len(v.anchors))]
+		}
+		a.LowerAnchor, b.LowerAnchor = t, t
+	case 2:
+		var t *time.Time
+		if a.UpperAnchor == nil || rng.Intn(3) != 0 {
+			t = v.anchors[rng.Intn(len(v.anchors))]
+		}
+		a.UpperAnchor, b.UpperAnchor = t, t
+	case 3:
+		l := !a.LatestAnchor
+		a.LatestAnchor, b.LatestAnchor = l, l
+		if l {
+			a.FilterOptions, b.FilterOptions = nil, nil
+		}
+	case 4:
+		var f *filter.StorageOptions
+		if a.FilterOptions == nil || rng.Intn(3) != 0 {
+			c := *v.filters[rng.Intn(5)]
+			f = &c
+		}
+		a.FilterOptions, b.FilterOptions = f, f
+	case 5:
+		o := rng.Intn(3)
+		a.Offset, b.Offset = o, o
+	}
 }
 
 // randQuery draws a request; arguments are taken from a stored triple most of the time so that answers are non-empty.
@@ -389,6 +440,7 @@ type SeqOp struct {
 	Memo    *Ans      `json:"memo,omitempty"`
 	Plain   *Ans      `json:"plain,omitempty"`
 	Fwd     []InnerEv `json:"fwd"`
+	LoUse   string    `json:"lo_use,omitempty"` // how the options value of this call came about
 }
 
 type SeqCase struct {
@@ -453,6 +505,12 @@ func genSeq(id int, seed int64, faults bool) SeqCase {
 	maxHandles := 1 + rng.Intn(3)
 	nops := 8 + rng.Intn(28)
 	var pool []*Query
+	type loSlot struct {
+		m, p *storage.LookupOptions // long-lived option values: for the memoizer, twin for the plain store
+		q    *Query                 // the lookup the caller last made with it
+		h    int
+	}
+	var slots []*loSlot
 	presentList := func(g int) []*triple.Triple {
 		keys := []string{}
 		for k := range present[g] {
@@ -546,13 +604,50 @@ func genSeq(id int, seed int64, faults bool) SeqCase {
 			if faults && rng.Intn(4) == 0 {
 				c.readFaults[c.nReads] = rng.Intn(3)
 			}
-			d := q.desc()
-			lo := q.Lo
-			ma := q.run(ctx, handles[h])
+			// the options value handed to the call: a fresh one, or a long-lived one that is re-used, changed in place,
+			// or copied as a struct and then changed (one value for the memoizer, a twin for the plain store)
+			lm, lp := q.Lo, q.Lo
+			ml, pl := &lm, &lp
+			how := "fresh"
+			if rng.Intn(100) < 40 {
+				if len(slots) == 0 || (len(slots) < 3 && rng.Intn(5) == 0) {
+					slots = append(slots, &loSlot{ml, pl, q, h})
+					how = "kept"
+				} else {
+					k := rng.Intn(len(slots))
+					ml, pl = slots[k].m, slots[k].p
+					if rng.Intn(4) != 0 {
+						// the same lookup again through the same handle, as a caller that keeps its options does
+						q, h = slots[k].q, slots[k].h
+					}
+					switch rng.Intn(5) {
+					case 0:
+						how = "reused"
+					case 1, 2, 3:
+						v.mutateLo(rng, ml, pl)
+						how = "changed-in-place"
+					case 4:
+						cm, cp := *ml, *pl
+						ml, pl = &cm, &cp
+						v.mutateLo(rng, ml, pl)
+						slots[k].m, slots[k].p = ml, pl
+						how = "struct-copy-changed"
+					}
+					slots[k].q, slots[k].h = q, h
+				}
+				q2 := *q
+				q2.Lo = *ml
+				q2.Lo.FilterOptions = ml.FilterOptions
+				q = &q2
+				pool = append(pool, q)
+			}
+			d := q.descLo(ml)
+			lostr := ml.String()
+			ma := q.runLo(ctx, handles[h], ml)
 			fwd := c.takeLog()
 			delete(c.readFaults, c.nReads) // a fault planned for a read that was served from the cache is dropped
-			pa := q.run(ctx, plainG[hgraph[h]])
-			cs.Ops = append(cs.Ops, SeqOp{H: h, K: "read", G: hgraph[h], Q: &d, LoStr: lo.String(), Memo: &ma, Plain: &pa, Fwd: fwd})
+			pa := q.runLo(ctx, plainG[hgraph[h]], pl)
+			cs.Ops = append(cs.Ops, SeqOp{H: h, K: "read", G: hgraph[h], Q: &d, LoStr: lostr, Memo: &ma, Plain: &pa, Fwd: fwd, LoUse: how})
 		}
 	}
 	return cs
@@ -710,6 +805,8 @@ type SchedResult struct {
 	Complete bool      `json:"complete"`
 	Invalid  bool      `json:"invalid"`
 	Hang     bool      `json:"hang"`
+	FreeRun  bool      `json:"free_run"` // after a hang the threads were released and ran to completion on their own
+	Status   []string  `json:"status"`   // where every thread was parked when the run stopped
 	Threads  [][]OpRec `json:"threads"`
 	Final    []int     `json:"final"`
 	Inner    []InnerEv `json:"-"`
@@ -758,8 +855,12 @@ func runSched(scn *Scenario, sched []int, extend bool) *SchedResult {
 	}
 	res := &SchedResult{Kind: "sched", Scn: scn.Name, Threads: make([][]OpRec, n)}
 	pos := 0 // schedule position, written by the controller only while every thread is parked
+	var twg sync.WaitGroup
+	var tmu sync.Mutex
 	for t := 0; t < n; t++ {
+		twg.Add(1)
 		go func(t int) {
+			defer twg.Done()
 			ctx := withTid(t)
 			th := scn.Threads[t]
 			for i := range th.Ops {
@@ -783,7 +884,9 @@ func runSched(scn *Scenario, sched []int, extend bool) *SchedResult {
 						}
 					}
 				}
+				tmu.Lock()
 				res.Threads[t] = append(res.Threads[t], rec)
+				tmu.Unlock()
 			}
 			c.park(ctx, "finished")
 		}(t)
@@ -793,7 +896,7 @@ func runSched(scn *Scenario, sched []int, extend bool) *SchedResult {
 		select {
 		case ev := <-c.parkCh:
 			return ev, true
-		case <-time.After(10 * time.Second):
+		case <-time.After(4 * time.Second):
 			return parkEv{}, false
 		}
 	}
@@ -845,6 +948,38 @@ func runSched(scn *Scenario, sched []int, extend bool) *SchedResult {
 		}
 	}
 	res.Complete = len(enabledNow()) == 0 && !res.Hang && !res.Invalid
+	res.Status = append([]string{}, status...)
+	if res.Hang {
+		// a thread neither reached a yield point nor finished its request: it waits for ANOTHER request.  Release
+		// everything, let the threads run off, and report what they saw (each thread records the wrapped store's
+		// answer at the moment its request completes).
+		go func() {
+			for range c.parkCh {
+			}
+		}()
+		c.mu.Lock()
+		c.gating = false
+		c.mu.Unlock()
+		for t := 0; t < n; t++ {
+			close(c.resume[t])
+		}
+		fin := make(chan struct{})
+		go func() { twg.Wait(); close(fin) }()
+		select {
+		case <-fin:
+			res.FreeRun = true
+		case <-time.After(4 * time.Second):
+		}
+		tmu.Lock()
+		out := make([][]OpRec, n)
+		for t := range res.Threads {
+			out[t] = append([]OpRec{}, res.Threads[t]...)
+		}
+		tmu.Unlock()
+		res.Threads = out
+		res.Final = []int{}
+		return res
+	}
 	for _, s := range listing(raw) {
 		res.Final = append(res.Final, tinyBack[s])
 	}
@@ -853,10 +988,12 @@ func runSched(scn *Scenario, sched []int, extend bool) *SchedResult {
 	}
 	res.Inner = c.takeLog()
 	// copy results, then let parked goroutines run off
+	tmu.Lock()
 	out := make([][]OpRec, n)
 	for t := range res.Threads {
 		out[t] = append([]OpRec{}, res.Threads[t]...)
 	}
+	tmu.Unlock()
 	res.Threads = out
 	c.mu.Lock()
 	c.gating = false
@@ -890,6 +1027,9 @@ func explore(scn *Scenario, prefix []int, emit func(*SchedResult), budget *int) 
 	r := runSched(scn, prefix, true)
 	*budget--
 	emit(r)
+	if r.Hang {
+		*budget = 0 // one blocked schedule is enough: every further one would cost the time-out again
+	}
 	if !r.Complete {
 		return
 	}
